@@ -370,10 +370,44 @@ def run(world, rep, tier, only=None):
     # it, too, needs an empty output.  Where the output is opened, O_TRUNC is added for this mode as well - one of
     # the alternatives leading to the store tests E2IMAGE_IS_QCOW2_FLAG.
     conv = calls_to(mn, "qcow2_write_raw_image")
-    tr = [n for n in mn.events("S") if "O_TRUNC" in T.macros(n.ev.get("rhs") or {})]
+    # the open that yields the descriptor handed to the conversion, and where O_TRUNC gets into its flags
+    fdv = {T.path(arg(c, 1)) for c in conv} - {None}
+    opens_ = [n for n in mn.events("S") if T.path(n.ev["lhs"]) in fdv and
+              any(cc.get("fn") in ("ext2fs_open_file", "open", "open64") for cc in T.calls(n.ev.get("rhs") or {}))]
+    fl_vars, tr = set(), []
+    for n in opens_:
+        for cc in T.calls(n.ev.get("rhs") or {}):
+            if cc.get("fn") in ("ext2fs_open_file", "open", "open64") and len(cc.get("a", [])) > 1:
+                fl_vars |= T.vars_in(cc["a"][1])
+                if "O_TRUNC" in T.macros(cc["a"][1]):
+                    tr.append(n)
+    tr += [n for n in mn.events("S") if "O_TRUNC" in T.macros(n.ev.get("rhs") or {}) and T.path(n.ev["lhs"]) in fl_vars]
     rep.floor("C19.g conversion call / O_TRUNC store in main", min(len(conv), len(tr)), 1)
-    alt = [T.pp(a)[:40] for n in tr for t, a in control_lits(mn, n) + restrict_lits(mn, n)
-           if t is not False and "E2IMAGE_IS_QCOW2_FLAG" in T.macros(a)]
+    qc = lambda y: isinstance(y, dict) and "E2IMAGE_IS_QCOW2_FLAG" in T.macros(y)
+    alt = []
+    for n in tr:
+        conds = [a for t, a in control_lits(mn, n) + restrict_lits(mn, n) if t is not None]
+        # ... and the conditions of conditional expressions the constant sits in (`c ? flags : flags | O_TRUNC`)
+        for key in ("x", "rhs"):
+            e = n.ev.get(key)
+            if isinstance(e, dict):
+                for y in T.walk(e):
+                    if isinstance(y, dict) and y.get("k") == "?" and ("O_TRUNC" in T.macros(y.get("t") or {}) or "O_TRUNC" in T.macros(y.get("f") or {})):
+                        conds.append(y.get("c0"))
+        def tests_bit(a, d=2):
+            # the condition itself - through locals assigned once (`keep = … && !(flags & IS_QCOW2)`) - names the bit;
+            # going through every store to `flags` would make any test of `flags` count
+            if qc(a):
+                return True
+            if d <= 0:
+                return False
+            for y in T.walk(a):
+                if isinstance(y, dict) and y.get("k") == "v" and y.get("s") == "l":
+                    r_ = resolve_local(mn, y)
+                    if r_ is not y and tests_bit(r_, d - 1):
+                        return True
+            return False
+        alt += [T.pp(a)[:40] for a in conds if isinstance(a, dict) and tests_bit(a)]
     rep.ob("C19.g", site(mn, "qcow2-to-raw conversion starts from an empty file"), bool(alt),
            "`o_flags |= O_TRUNC` is reached for a qcow2 source: alternatives testing E2IMAGE_IS_QCOW2_FLAG: %s" % alt[:2])
 
